@@ -45,6 +45,12 @@ def run(tier, seed, replay=None):
                                 {"a": "Deq"}, {"a": "Deq"}, {"a": "TargetRecv"}, {"a": "TargetRecv"}, {"a": "TargetRecv"}, {"a": "TargetRecv"}, {"a": "TargetRecv"},
                                 {"a": "TargetRecv"}, {"a": "TargetRecv"}, {"a": "Crash", "off": 2, "db": 1}, {"a": "SrcEmit", "item": {"t": "w", "d": -1, "id": 3}}, {"a": "Parse"}]]},
         }
+        sub["supervisor"] = {"seed": seed, "max_retries": 2, "orders": 2, "cases": [
+            {"scn": [["master", "slave", "slave"]], "first": 1, "masters": [1]},
+            {"scn": [["slave", "master", "slave"]], "first": 2, "masters": [2]},            # fail-over to a remembered slave
+            {"scn": [["err", "slave", "master"]], "first": 3, "masters": [3]},              # old master unreachable
+            {"scn": [["err", "slave", "slave"], ["err", "master", "slave"]], "first": 2, "masters": [2]},  # found in a later round
+            {"scn": [["slave", "slave", "err"], ["slave", "err", "slave"], ["err", "err", "err"]], "first": 0, "masters": []}]}  # retries exhausted
         rc, out, err = vlib.run_vdrv(["secrets"], stdin=json.dumps({"seed": seed, "trace": trace, "dir": sc.dir, "sub": sub}), timeout=600,
                                      env={"VERIF_LOG_DEBUG": "1"})
         if rc != 0:
